@@ -667,4 +667,306 @@ theorem query_faulty (ext : Ext) (port retries : Nat) (cfg : Config) (st : State
     ⟨rfl, by simp, by simp, rfl⟩
   simpa using h
 
+/-! ### what the prescribed outcome is in the three situations C10 names -/
+
+theorem sectionOutcome_none {α : Type} (t : Toggle) (p : UnitPlan) (v : α) (h : t ≠ .skip → p.error = none) :
+    sectionOutcome t p v = .ok (if t == .skip then none else some v) := by
+  unfold sectionOutcome
+  cases t with
+  | skip => rfl
+  | try_ => simp [h (by decide)]
+  | enforce => simp [h (by decide)]
+
+theorem toggleOf_info (cfg : Config) : toggleOf cfg .info ≠ .skip := by simp [toggleOf]
+
+/-- every gathered unit is eventually answered: the prescribed outcome is the fault-free one -/
+theorem faultyExpected_recovers (cfg : Config) (st : State) (plan : Plan)
+    (h : ∀ u, toggleOf cfg u ≠ .skip → (plan.unit u).error = none) :
+    faultyExpected cfg st plan = expected cfg st := by
+  have hi := h .info (toggleOf_info cfg)
+  have hp := h .players
+  have hr := h .rules
+  simp only [Plan.unit, toggleOf] at hi hp hr
+  unfold faultyExpected expected
+  simp only [hi, sectionOutcome_none _ _ _ hp, sectionOutcome_none _ _ _ hr]
+  split <;> rfl
+
+theorem faultySends_recovers (cfg : Config) (st : State) (plan : Plan)
+    (h : ∀ u, toggleOf cfg u ≠ .skip → (plan.unit u).error = none) :
+    faultySends cfg st plan
+      = sendsOf cfg plan (if appIdOk cfg.engine cfg.gather st.info.appid then [.info, .players, .rules] else [.info]) := by
+  have hi := h .info (toggleOf_info cfg)
+  have hp := h .players
+  simp only [Plan.unit, toggleOf] at hi hp
+  unfold faultySends sendsOf
+  rw [hi]
+  cases happ : appIdOk cfg.engine cfg.gather st.info.appid
+  · simp [toggleOf, Plan.unit, exchangeOf]
+  · cases htp : cfg.gather.players <;> cases htr : cfg.gather.rules <;>
+      simp_all [toggleOf, Plan.unit, exchangeOf]
+
+/-- the first unit that does not end with the server's reply is an enforced one: its error is the query's -/
+theorem faultyExpected_stops (cfg : Config) (st : State) (plan : Plan) (u : Request) (k : ErrKind)
+    (hearlier : ∀ v ∈ earlier u, toggleOf cfg v ≠ .skip → (plan.unit v).error = none)
+    (hu : (plan.unit u).error = some k) (ht : toggleOf cfg u = .enforce)
+    (happ : u ≠ .info → appIdOk cfg.engine cfg.gather st.info.appid = true) :
+    faultyExpected cfg st plan = .err k := by
+  unfold faultyExpected
+  cases u with
+  | info =>
+    simp only [Plan.unit] at hu
+    rw [hu]
+  | players =>
+    have hi := hearlier .info (by simp [earlier]) (toggleOf_info cfg)
+    simp only [Plan.unit, toggleOf] at hi hu ht
+    simp only [hi]
+    simp [happ (by decide), sectionOutcome, hu, ht]
+  | rules =>
+    have hi := hearlier .info (by simp [earlier]) (toggleOf_info cfg)
+    have hp := hearlier .players (by simp [earlier])
+    simp only [Plan.unit, toggleOf] at hi hp hu ht
+    simp only [hi, sectionOutcome_none _ _ _ hp]
+    simp [happ (by decide), sectionOutcome, hu, ht]
+
+/-- … and nothing of the later units is sent -/
+theorem faultySends_stops (cfg : Config) (st : State) (plan : Plan) (u : Request) (k : ErrKind)
+    (hearlier : ∀ v ∈ earlier u, toggleOf cfg v ≠ .skip → (plan.unit v).error = none)
+    (hu : (plan.unit u).error = some k) (ht : toggleOf cfg u = .enforce)
+    (happ : u ≠ .info → appIdOk cfg.engine cfg.gather st.info.appid = true) :
+    faultySends cfg st plan = sendsOf cfg plan (earlier u ++ [u]) := by
+  unfold faultySends sendsOf
+  cases u with
+  | info =>
+    simp only [Plan.unit] at hu
+    simp [hu, earlier, toggleOf, Plan.unit, exchangeOf]
+  | players =>
+    have hi := hearlier .info (by simp [earlier]) (toggleOf_info cfg)
+    simp only [Plan.unit, toggleOf] at hi hu ht
+    simp [hi, hu, ht, happ (by decide), earlier, toggleOf, Plan.unit, exchangeOf]
+  | rules =>
+    have hi := hearlier .info (by simp [earlier]) (toggleOf_info cfg)
+    have hp := hearlier .players (by simp [earlier])
+    simp only [Plan.unit, toggleOf] at hi hp hu ht
+    cases htp : cfg.gather.players <;>
+      simp_all [earlier, toggleOf, Plan.unit, exchangeOf]
+
+/-- a unit that is only tried and does not end with the server's reply is an absent section, the others being
+answered -/
+theorem faultyExpected_try (cfg : Config) (st : State) (plan : Plan) (u : Request) (k : ErrKind)
+    (hothers : ∀ v, v ≠ u → toggleOf cfg v ≠ .skip → (plan.unit v).error = none)
+    (hu : (plan.unit u).error = some k) (ht : toggleOf cfg u = .try_) :
+    faultyExpected cfg st plan = (expected cfg st >>= fun r => .ok (withoutSection r u)) := by
+  unfold faultyExpected expected
+  cases u with
+  | info => simp [toggleOf] at ht
+  | players =>
+    have hi := hothers .info (by decide) (toggleOf_info cfg)
+    have hr := hothers .rules (by decide)
+    simp only [Plan.unit, toggleOf] at hi hr hu ht
+    simp only [hi, sectionOutcome_none _ _ _ hr]
+    split
+    · rfl
+    · simp [sectionOutcome, hu, ht, withoutSection]
+  | rules =>
+    have hi := hothers .info (by decide) (toggleOf_info cfg)
+    have hp := hothers .players (by decide)
+    simp only [Plan.unit, toggleOf] at hi hp hu ht
+    simp only [hi, sectionOutcome_none _ _ _ hp]
+    split
+    · rfl
+    · simp [sectionOutcome, hu, ht, withoutSection]
+
+theorem faultySends_try (cfg : Config) (st : State) (plan : Plan) (u : Request) (k : ErrKind)
+    (hothers : ∀ v, v ≠ u → toggleOf cfg v ≠ .skip → (plan.unit v).error = none)
+    (hu : (plan.unit u).error = some k) (ht : toggleOf cfg u = .try_) :
+    faultySends cfg st plan
+      = sendsOf cfg plan (if appIdOk cfg.engine cfg.gather st.info.appid then [.info, .players, .rules] else [.info]) := by
+  unfold faultySends sendsOf
+  cases u with
+  | info => simp [toggleOf] at ht
+  | players =>
+    have hi := hothers .info (by decide) (toggleOf_info cfg)
+    simp only [Plan.unit, toggleOf] at hi hu ht
+    cases happ : appIdOk cfg.engine cfg.gather st.info.appid <;> cases htr : cfg.gather.rules <;>
+      simp_all [toggleOf, Plan.unit, exchangeOf]
+  | rules =>
+    have hi := hothers .info (by decide) (toggleOf_info cfg)
+    have hp := hothers .players (by decide)
+    simp only [Plan.unit, toggleOf] at hi hp hu ht
+    cases happ : appIdOk cfg.engine cfg.gather st.info.appid <;> cases htp : cfg.gather.players <;>
+      simp_all [toggleOf, Plan.unit, exchangeOf]
+
+/-! ### counting attempts on the wire -/
+
+theorem attemptsOf_append (u : Request) (a b : List (Bytes × Bool)) :
+    attemptsOf u (a ++ b) = attemptsOf u a + attemptsOf u b := by
+  simp [attemptsOf, List.filter_append]
+
+theorem attemptsOf_flagLast (u : Request) (ds : List Bytes) (f : Bool) :
+    attemptsOf u (flagLast ds f) = (ds.filter fun d => d == unitRequest u none).length := by
+  induction ds with
+  | nil => rfl
+  | cons d r ih =>
+    cases r with
+    | nil => simp only [flagLast, attemptsOf, List.filter_cons]; split <;> rfl
+    | cons d' r' =>
+      simp only [flagLast] at ih ⊢
+      simp only [attemptsOf, List.filter_cons] at ih ⊢
+      split <;> simp_all
+
+theorem attemptsOf_map (u : Request) (ds : List Bytes) :
+    attemptsOf u (ds.map (·, false)) = (ds.filter fun d => d == unitRequest u none).length := by
+  rw [← flagLast_false, attemptsOf_flagLast]
+
+theorem unitRequest_ne (v u : Request) (h : v ≠ u) (c : Option Bytes) : unitRequest v c ≠ unitRequest u none := by
+  cases v <;> cases u <;> cases c <;>
+    first
+      | exact absurd rfl h
+      | simp [unitRequest, a2sInfoRequest, a2sPlayerRequest, a2sRulesRequest, header, noChallenge]
+
+/-- the requests of one attempt contain the initial request once (own unit, fresh challenges) or never (other unit) -/
+theorem count_requestsUpTo_self (u : Request) (x : Exchange) (j : Nat) (hf : freshChallenges u x = true) :
+    ((requestsUpTo u x j).filter fun d => d == unitRequest u none).length = 1 := by
+  have hnone : ((x.challenges.take j).map fun c => unitRequest u (some c)).filter (fun d => d == unitRequest u none) = [] := by
+    rw [List.filter_eq_nil_iff]
+    intro d hd
+    obtain ⟨c, hc, rfl⟩ := List.mem_map.mp hd
+    have := (List.all_eq_true.mp hf) c (List.mem_of_mem_take hc)
+    simpa using this
+  simp only [requestsUpTo, List.filter_cons, hnone, beq_self_eq_true, ↓reduceIte, List.length_cons, List.length_nil]
+
+theorem count_requestsUpTo_other (u v : Request) (h : v ≠ u) (x : Exchange) (j : Nat) :
+    ((requestsUpTo v x j).filter fun d => d == unitRequest u none).length = 0 := by
+  have : (requestsUpTo v x j).filter (fun d => d == unitRequest u none) = [] := by
+    rw [List.filter_eq_nil_iff]
+    intro d hd
+    simp only [requestsUpTo, List.mem_cons, List.mem_map] at hd
+    rcases hd with rfl | ⟨c, _, rfl⟩
+    · simpa using unitRequest_ne v u h none
+    · simpa using unitRequest_ne v u h (some c)
+  rw [this]; rfl
+
+theorem requestsUpTo_all (u : Request) (x : Exchange) :
+    (unitRequest u none :: x.challenges.map fun c => unitRequest u (some c)) = requestsUpTo u x x.challenges.length := by
+  simp [requestsUpTo]
+
+theorem attemptsOf_fails_self (u : Request) (x : Exchange) (hf : freshChallenges u x = true) (fails : List Attempt) :
+    attemptsOf u (fails.flatMap (Attempt.sends u x)) = fails.length := by
+  induction fails with
+  | nil => rfl
+  | cons a r ih =>
+    simp only [List.flatMap_cons, attemptsOf_append, ih, Attempt.sends, attemptsOf_flagLast,
+      count_requestsUpTo_self u x _ hf, List.length_cons]
+    omega
+
+theorem attemptsOf_fails_other (u v : Request) (h : v ≠ u) (x : Exchange) (fails : List Attempt) :
+    attemptsOf u (fails.flatMap (Attempt.sends v x)) = 0 := by
+  induction fails with
+  | nil => rfl
+  | cons a r ih =>
+    simp only [List.flatMap_cons, attemptsOf_append, ih, Attempt.sends, attemptsOf_flagLast,
+      count_requestsUpTo_other u v h]
+
+/-- the attempts of a unit seen on the wire are the plan's -/
+theorem attemptsOf_unit_self (u : Request) (x : Exchange) (hf : freshChallenges u x = true) (p : UnitPlan) :
+    attemptsOf u (p.sends u x) = p.attempts := by
+  obtain ⟨fails, ending⟩ := p
+  simp only [UnitPlan.sends, attemptsOf_append, attemptsOf_fails_self u x hf, UnitPlan.attempts]
+  cases ending with
+  | valid => simp only [Ending.sends, requestsUpTo_all, attemptsOf_map, count_requestsUpTo_self u x _ hf]
+  | gaveUp => rfl
+  | malformed j m => simp only [Ending.sends, attemptsOf_map, count_requestsUpTo_self u x _ hf]
+
+theorem attemptsOf_unit_other (u v : Request) (h : v ≠ u) (x : Exchange) (p : UnitPlan) :
+    attemptsOf u (p.sends v x) = 0 := by
+  obtain ⟨fails, ending⟩ := p
+  simp only [UnitPlan.sends, attemptsOf_append, attemptsOf_fails_other u v h]
+  cases ending with
+  | valid => simp only [Ending.sends, requestsUpTo_all, attemptsOf_map, count_requestsUpTo_other u v h]
+  | gaveUp => rfl
+  | malformed j m => simp only [Ending.sends, attemptsOf_map, count_requestsUpTo_other u v h]
+
+/-- attempts of unit `u` among the sends of the units `us` (each listed once) -/
+theorem attemptsOf_sendsOf (cfg : Config) (plan : Plan) (u : Request)
+    (hf : freshChallenges u (exchangeOf cfg u) = true) (us : List Request) (hnd : us.Nodup) :
+    attemptsOf u (sendsOf cfg plan us)
+      = if u ∈ us ∧ toggleOf cfg u ≠ .skip then (plan.unit u).attempts else 0 := by
+  induction us with
+  | nil => simp [sendsOf, attemptsOf]
+  | cons v r ih =>
+    have hnd' := List.nodup_cons.mp hnd
+    have ih' := ih hnd'.2
+    simp only [sendsOf, List.flatMap_cons, attemptsOf_append] at ih' ⊢
+    rw [ih']
+    by_cases hvu : v = u
+    · subst hvu
+      have hnot : ¬ (v ∈ r ∧ toggleOf cfg v ≠ .skip) := fun h => hnd'.1 h.1
+      by_cases hs : toggleOf cfg v = .skip
+      · simp [hs, attemptsOf]
+      · have hb : (toggleOf cfg v == Toggle.skip) = false := by simpa using hs
+        have hnr : ¬ v ∈ r := hnd'.1
+        simp [hb, hs, hnr, attemptsOf_unit_self v _ hf]
+    · have hmem : (u ∈ v :: r) ↔ u ∈ r := by simp [List.mem_cons, Ne.symm hvu]
+      have h0 : attemptsOf u (if toggleOf cfg v == .skip then [] else (plan.unit v).sends v (exchangeOf cfg v)) = 0 := by
+        split
+        · rfl
+        · exact attemptsOf_unit_other u v hvu _ _
+      rw [h0]
+      simp only [hmem, Nat.zero_add]
+
+/-! ### packaging for the property theorems -/
+
+/-- what is asked of the client's external decoders (bzip2, CRC-32): they read the compressed replies of the exchange;
+nothing when no reply is compressed -/
+def DecodersAgree (ext : Ext) (cfg : Config) (st : State) : Prop :=
+  BzOk ext (infoPacket cfg st) cfg.info.transport ∧
+  BzOk ext (reply 0x44 (encPlayers st.players)) cfg.players.transport ∧
+  BzOk ext (reply 0x45 (encRules st.rules)) cfg.rules.transport
+
+theorem decodersAgree_of_uncompressed (ext : Ext) (cfg : Config) (st : State) (hu : uncompressed cfg = true) :
+    DecodersAgree ext cfg st := by
+  simp only [uncompressed, Bool.and_eq_true, Bool.not_eq_true'] at hu
+  exact ⟨bzOk_of_uncompressed _ _ _ hu.1.1, bzOk_of_uncompressed _ _ _ hu.1.2, bzOk_of_uncompressed _ _ _ hu.2⟩
+
+theorem decodersAgree_of_law (ext : Ext) (compress : Bytes → Bytes) (hlaw : ∀ p, ext.bunzip (compress p) = some p)
+    (cfg : Config) (st : State) (hcar : carries compress ext.crc32 cfg st) : DecodersAgree ext cfg st :=
+  ⟨bzOk_of_law ext compress hlaw _ _ hcar.1, bzOk_of_law ext compress hlaw _ _ hcar.2.1,
+    bzOk_of_law ext compress hlaw _ _ hcar.2.2⟩
+
+theorem error_of_valid {p : UnitPlan} (h : p.ending = .valid) : p.error = none := by
+  simp [UnitPlan.error, h]
+
+theorem error_of_gaveUp {p : UnitPlan} (h : p.ending = .gaveUp) : p.error = some (lastError Attempt.error p.fails) := by
+  simp [UnitPlan.error, h]
+
+theorem error_of_malformed {p : UnitPlan} {j : Nat} {m : Bytes} (h : p.ending = .malformed j m) :
+    p.error = some .packetUnderflow := by
+  simp [UnitPlan.error, h]
+
+theorem error_of_not_valid {p : UnitPlan} (h : p.ending ≠ .valid) : ∃ k, p.error = some k := by
+  unfold UnitPlan.error
+  cases he : p.ending with
+  | valid => exact absurd he h
+  | gaveUp => exact ⟨_, rfl⟩
+  | malformed j m => exact ⟨_, rfl⟩
+
+/-- the error of the last of a non-empty list of failed attempts -/
+theorem lastError_append (fails : List Attempt) (a : Attempt) :
+    lastError Attempt.error (fails ++ [a]) = a.error := by
+  induction fails with
+  | nil => rfl
+  | cons b r ih =>
+    cases r with
+    | nil => rfl
+    | cons c r' => simpa [lastError] using ih
+
+theorem lastError_class (fails : List Attempt) :
+    lastError Attempt.error fails = .packetReceive ∨ lastError Attempt.error fails = .packetSend := by
+  induction fails with
+  | nil => exact Or.inl rfl
+  | cons b r ih =>
+    cases r with
+    | nil => simp only [lastError, Attempt.error]; split <;> simp
+    | cons c r' => simpa [lastError] using ih
+
 end Gd.Valve
